@@ -388,6 +388,29 @@ theorem rise_safe_counterexample :
   unfold psin pcos
   linarith
 
+/-- Why the counterexample is not an accident ("the Sun really does not set there that day"): for EVERY
+    latitude `φ` and solar declination `δ` (degrees, strictly between the poles) and every height, as
+    soon as `φ + δ > 90° − 0.83° − dip` the `acos` argument of `rise_set` is below −1, so Python raises
+    `ValueError("math domain error")`; together with `rise_safe_partial` this locates the failing
+    region exactly (northern summer; the southern one is the mirror image). -/
+theorem rise_no_sunset (lat δ alt : ℝ) (hφ : |lat| < 90) (hδ : |δ| < 90)
+    (hdip : 0.83 + 2.076 * Real.sqrt alt / 60 ≤ 90)
+    (h : 90 - 0.83 - 2.076 * Real.sqrt alt / 60 < lat + δ) :
+    rise_cos_om lat (psin (pradians δ)) (pcos (pradians δ)) alt < -1 := by
+  have hpi := Real.pi_pos
+  rw [abs_lt] at hφ hδ
+  have cpos : ∀ x : ℝ, -90 < x → x < 90 → 0 < Real.cos (x * (Real.pi / 180)) := by
+    intro x h1 h2
+    exact Real.cos_pos_of_mem_Ioo ⟨by nlinarith, by nlinarith⟩
+  have hcos := mul_pos (cpos lat hφ.1 hφ.2) (cpos δ hδ.1 hδ.2)
+  unfold rise_cos_om rise_h0 psin pcos pradians psqrt
+  apply cos_om_lt_neg_one _ _ _ hcos
+  · norm_num; nlinarith
+  · have : (90 - 0.83 - 2.076 * Real.sqrt alt / 60) * (Real.pi / 180) < (lat + δ) * (Real.pi / 180) :=
+      mul_lt_mul_of_pos_right h (by positivity)
+    norm_num at this ⊢; linarith
+  · nlinarith
+
 /-- The hypotheses of `rise_safe_partial` / `rise_order` are satisfiable up to the boundary
     (sea level, latitude 65.73° = 90° − 23.44° − 0.83°), any date and longitude. -/
 example (ejde lon : ℝ) : ∃ r, rise_set_core ejde 27 65.73 lon 0 = .ok r ∧ -1 ≤ r.2.2 ∧ r.2.2 ≤ 1 := by
